@@ -81,7 +81,7 @@ m = {
  "version": 1,
  "setup_cmd": "./setup.sh",
  "hooks": {"guard": "cfg(kani) (exists only inside the scratch copy built by vcheck; nothing is committed to /repo)",
-           "enable": "vcheck copies /repo/graph/src and /repo/pie/src to a scratch directory, injects `extern crate kstd as std;` and appends `#[cfg(kani)] mod verif_*;` lines there",
+           "enable": "vcheck copies /repo/graph/src and /repo/pie/src to a scratch directory and, only there, injects `extern crate kstd as std;` at each crate root, `use std::kvec::Vec;` in files that use Vec, the layout-only attribute `#[repr(u8)]` before `enum NodeData {` in pie/src/store.rs, and appends `#[cfg(kani)] mod verif_*;` lines; nothing is changed in /repo",
            "baseline_off_cmd": "cd /repo && cargo test --workspace --no-fail-fast --offline",
            "source_commits": [], "add_only": True},
  "engines": [{"name": "kani-cbmc", "path": "/verif/vcheck", "serves_properties": sorted(CLAIMS),
